@@ -117,17 +117,16 @@ Print Assumptions C05_shape_dtype_any_index.
              (every part's first stage exists) -> c_mk raws ts = Ok c -> c_getitem c ix = Ok out ->
              spec_concat raws ts ix = Ok out.
    Both are carried by the correspondence (wire 52 compares c_mk/c_getitem with spec_concat on every case). *)
-Theorem C05_concat_partial : forall ps fs T dt,
+Theorem C05_concat_core : forall ps fs T dt,
   Forall2 (part_ok T dt) ps fs -> ps <> [] -> Forall (fun p => 0 <= part_len p) ps ->
   forall ts ixs out,
   c_initial_dtype ps = Ok dt ->
-  head_proved (hd full (pad_to (Datatypes.S (List.length T)) ixs)) ->
   c_getitem (mk_concat ps ts) ixs = Ok out ->
   (r <- oindex (mk_nd (zsum (map part_len ps) :: T)
                       (Node (List.concat (map (fun f => children (nd_body f)) fs)))) ixs ;;
    apply_transforms ts (mk_arr dt r)) = Ok out.
 Proof. exact concat_core. Qed.
-Print Assumptions C05_concat_partial.
+Print Assumptions C05_concat_core.
 
 (* every real part satisfies the hypothesis of C05_concat_partial *)
 Theorem C05_concat_parts : forall r li a1,
